@@ -65,7 +65,7 @@ def run_lalrpop(lal, text, tag):
     if not os.path.exists(os.path.join(d, "out")):
         open(os.path.join(d, "g.lalrpop"), "w").write(text)
         try:
-            p = subprocess.run([lal, "-f", "g.lalrpop"], cwd=d, stdout=subprocess.PIPE, stderr=subprocess.STDOUT, text=True, timeout=60, errors="replace")
+            p = subprocess.run([lal, "-f", "g.lalrpop"], cwd=d, stdout=subprocess.PIPE, stderr=subprocess.STDOUT, text=True, timeout=900, errors="replace")
             open(os.path.join(d, "out"), "w").write("%d\n%s" % (p.returncode, p.stdout[-3000:]))
         except subprocess.TimeoutExpired:
             open(os.path.join(d, "out"), "w").write("-9\nTIMEOUT")
